@@ -221,6 +221,9 @@ class Tr:
                 effs += eff
                 if v.format_spec is None:
                     pieces.append(f'to_piece {t}')
+                elif (len(v.format_spec.values) == 1 and isinstance(v.format_spec.values[0], ast.Constant)
+                      and re.fullmatch(r'0\d', str(v.format_spec.values[0].value))):
+                    pieces.append(f'PIpad {int(v.format_spec.values[0].value[1:])} (to_int {t})')
                 else:
                     d = self.fixed_digits(v.format_spec, env)
                     pieces.append(f'PF {d} {t}')
@@ -317,6 +320,18 @@ class Tr:
         if type(op) not in table:
             raise Unsupported('comparison')
         return e1 + e2, f'({table[type(op)]} {t1} {t2})'
+
+    def E_Subscript(self, e, env):
+        if isinstance(e.slice, ast.Constant) and e.slice.value == 0:
+            eff, t = self.E(e.value, env)
+            v = env.fresh('first')
+            return eff + [(v, f'(match {t} with [] => raise EIndex | x0__ :: _ => ret x0__ end)')], v
+        if (isinstance(e.slice, ast.UnaryOp) and isinstance(e.slice.op, ast.USub) and isinstance(e.slice.operand, ast.Constant)
+                and e.slice.operand.value == 1):
+            eff, t = self.E(e.value, env)
+            v = env.fresh('last')
+            return eff + [(v, f'(match {t} with [] => raise EIndex | x0__ :: r__ => ret (List.last r__ x0__) end)')], v
+        raise Unsupported('subscript')
 
     def E_IfExp(self, e, env):
         n = self.none_test(e.test)
@@ -447,6 +462,8 @@ class Tr:
         if isinstance(f, ast.Name):
             if dump(e) == LISTCAST_FLATTEN:
                 return [], '(listcast_flatten variables)'
+            if f.id == 'str' and len(e.args) == 1 and isinstance(e.args[0], ast.Name):
+                return [], cname(e.args[0].id)          # str(path): the path value itself
             if f.id == 'abs' and len(e.args) == 1:
                 eff, t = self.E(e.args[0], env)
                 return eff, f'(pyabs {t})'
@@ -696,6 +713,10 @@ class Tr:
         if isinstance(tg, ast.Tuple) and all(isinstance(x, ast.Name) for x in tg.elts):
             names = [cname(x.id) for x in tg.elts]
             v = s.value
+            for hook in EXPR_HOOKS:
+                r = hook(self, v, env)
+                if r is not None:
+                    return self.wrap(r[0], f"let '({', '.join(names)}) := {r[1]} in {self.T(rest, env, tail)}")
             if (isinstance(v, ast.Call) and isinstance(v.func, ast.Attribute) and isinstance(v.func.value, ast.Name)
                     and v.func.value.id == 'self' and v.func.attr == 'transform_points'):
                 effs, term, _ = self.self_call('transform_points', v, env)
@@ -830,7 +851,7 @@ class Tr:
             raise Unsupported(f'decorators of {name}: {decos}')
         pos = [a.arg for a in d.args.args if a.arg != 'self' and a.arg not in IGNORED_PARAMS.get(name, ())]
         if kind == 'withbody':
-            pos = [p for p, _ in sig]      # the body reads self.<attr>, given as parameters; pgm(verbose) itself is not translated
+            pos = [p for p, _ in sig]      # the body reads self.<attr> / the method's arguments, given as parameters by the spec
         if d.args.vararg or d.args.kwarg or d.args.kwonlyargs or pos != [p for p, _ in sig]:
             raise Unsupported(f'signature of {name}: {pos}')
         env = Env(name)
@@ -843,7 +864,7 @@ class Tr:
         stmts = list(d.body)
         if kind == 'withbody':
             ws = [st for st in d.body if isinstance(st, ast.With) and len(st.items) == 1
-                  and dump(st.items[0].context_expr).startswith("Call(func=Name(id='PGMCompiler'), args=[], keywords=[keyword(value=Name(id='_")
+                  and re.fullmatch(r"Call\(func=Name\(id='PGMCompiler'\), args=\[\], keywords=\[keyword\(value=Name\(id='\w+'\)\)\]\)", dump(st.items[0].context_expr))
                   and isinstance(st.items[0].optional_vars, ast.Name) and st.items[0].optional_vars.id == 'G']
             if len(ws) != 1:
                 raise Unsupported(f'{name}: expected exactly one `with PGMCompiler(**param) as G:` statement')
@@ -971,6 +992,62 @@ WRITER_SPEC = dict(out='SrcWr.v', imports='PureState LineTok PgmSrc PgmEquiv', f
                           ('MarkerWriter', 'pgm', 'mk_body', [('obj_list', 'list wobj')])])
 
 
+
+# ---- TrenchWriter._farcall_trench_column: the program written inside `with PGMCompiler(<param>) as G:`
+def _fmt03(name, suffix):
+    return ("JoinedStr(values=[Constant(value='trench'), FormattedValue(value=BinOp(left=Name(id='i_trc'), op=Add(), right=Constant(value=1)), "
+            "conversion=-1, format_spec=JoinedStr(values=[Constant(value='03')])), Constant(value='%s')])" % suffix)
+
+
+def _colpath(fname):
+    return ("BinOp(left=BinOp(left=Call(func=Attribute(value=Name(id='pathlib'), attr='Path'), args=[Attribute(value=Name(id='column'), "
+            "attr='base_folder')], keywords=[]), op=Div(), right=JoinedStr(values=[Constant(value='trenchCol'), FormattedValue(value=BinOp("
+            "left=Name(id='index'), op=Add(), right=Constant(value=1)), conversion=-1, format_spec=JoinedStr(values=[Constant(value='03')]))])), "
+            "op=Div(), right=Name(id='%s'))" % fname)
+
+
+_FC_EXPR = {
+    # file names are built by string formatting / pathlib: given to the model as the paths of the block record
+    _fmt03('wall', '_WALL.pgm'): '(sb_wall_n trench)',
+    _fmt03('floor', '_FLOOR.pgm'): '(sb_floor_n trench)',
+    _colpath('wall_filename'): '(sb_wall_f trench)',
+    _colpath('floor_filename'): '(sb_floor_f trench)',
+    # the first vertex of the outline at the level's starting depth, through the scalar branch of transform_points
+    "Call(func=Attribute(value=Name(id='self'), attr='transform_points'), args=[Subscript(value=Attribute(value=Name(id='trench'), attr='xborder'), "
+    "slice=Constant(value=0)), Subscript(value=Attribute(value=Name(id='trench'), attr='yborder'), slice=Constant(value=0)), Call(func=Attribute("
+    "value=Name(id='np'), attr='array'), args=[BinOp(left=BinOp(left=Name(id='nbox'), op=Mult(), right=Attribute(value=Name(id='column'), attr='h_box')), "
+    "op=Add(), right=Attribute(value=Name(id='column'), attr='z_off'))], keywords=[])], keywords=[])":
+        '(init_point (abs_cfg c) (sb_first trench) (inject_Z nbox * sc_hbox column + sc_zoff column)%Q)',
+    # deltaz / neff as femto computes it (a float division of two attributes)
+    "BinOp(left=Attribute(value=Name(id='column'), attr='deltaz'), op=Div(), right=Attribute(value=Call(func=Name(id='super'), args=[], keywords=[]), attr='neff'))":
+        '(sc_dz column)',
+    "Attribute(value=Name(id='column'), attr='u')": '(sc_u column)',
+    "Attribute(value=Name(id='column'), attr='speed_closed')": '(sc_speed_closed column)',
+    "Attribute(value=Name(id='column'), attr='n_repeat')": '(sc_nrepeat column)',
+    "Attribute(value=Attribute(value=Name(id='self'), attr='long_pause'))": None,
+    # for nbox, (i_trc, trench) in list(itertools.product(range(column.nboxz), list(enumerate(column))))
+    "Call(func=Name(id='list'), args=[Call(func=Attribute(value=Name(id='itertools'), attr='product'), args=[Call(func=Name(id='range'), args=[Attribute("
+    "value=Name(id='column'), attr='nboxz')], keywords=[]), Call(func=Name(id='list'), args=[Call(func=Name(id='enumerate'), args=[Name(id='column')], "
+    "keywords=[])], keywords=[])], keywords=[])], keywords=[])":
+        '(product_ (zrange 0 (Z.of_nat (sc_nboxz column))) (enumerate_ (sc_blocks column)))',
+}
+
+
+def _h_fc(tr, e, env):
+    d = dump(e)
+    if d in _FC_EXPR and _FC_EXPR[d] is not None:
+        return [], _FC_EXPR[d]
+    if d == "Attribute(value=Name(id='self'), attr='long_pause')":
+        return [], '(cfg_long_pause c)'
+    if isinstance(e, ast.JoinedStr) and e.values and isinstance(e.values[0], ast.Constant) and str(e.values[0].value).startswith('+---'):
+        return [], cstr('+--- COLUMN')        # the text of a comment: only whether it is empty matters
+
+
+FARCALL_SPEC = dict(out='SrcFc.v', imports='PureState LineTok PgmSrc PgmEquiv FcState', femto_imports=' Geo.Rigid Pgm.Ops Trench.TreeProg',
+                    cfg_type='pcfg', cfg_attrs={'long_pause'}, local_elt={}, expr_hooks=[_h_fc], stmt_skip=[],
+                    parts=[('TrenchWriter', '_farcall_trench_column', 'farcall_body', [('column', 'scol'), ('index', 'Z')])])
+
+
 PURE_PREAMBLE = '''(* GENERATED by harness/py2coq.py from src/femto/%s -- do not edit.
    Small pure methods (point count, Nasu pass order, number of wall passes, adjusted bridge); PureEquiv.v relates them to
    Path/Sampling.v, Writers/Writers.v, Trench/TreeProofs.v. *)
@@ -1007,10 +1084,10 @@ def translate_pure(src_dir: str, spec: dict) -> str:
     return ''.join(out)
 
 
-def translate_writers(src_dir: str) -> str:
+def translate_writers(src_dir: str, spec: dict | None = None) -> str:
     global METHODS, CFG_ATTRS, STATE_ATTRS, ORACLES, CFG_TYPE, LOCAL_ELT, EXTRA_PARAMS, MONAD, EXPR_HOOKS, STMT_SKIP, RECEIVERS
     saved = (METHODS, CFG_ATTRS, STATE_ATTRS, ORACLES, CFG_TYPE, LOCAL_ELT, EXTRA_PARAMS, MONAD, EXPR_HOOKS, STMT_SKIP, RECEIVERS)
-    spec = WRITER_SPEC
+    spec = spec or WRITER_SPEC
     out = [PURE_PREAMBLE % ('writer.py', spec['femto_imports'], spec['imports'])]
     try:
         api = [n for n in ast.parse(pathlib.Path(src_dir, 'pgmcompiler.py').read_text()).body
@@ -1046,6 +1123,8 @@ def main(argv):
                 name, text = 'PgmSrc.v', translate(str(src_dir / 'pgmcompiler.py'))
             elif g == 'SrcWr.v':
                 name, text = g, translate_writers(str(src_dir))
+            elif g == 'SrcFc.v':
+                name, text = g, translate_writers(str(src_dir), FARCALL_SPEC)
             else:
                 spec = [sp for sp in PURE_SPECS if sp['out'] == g][0]
                 name, text = g, translate_pure(str(src_dir), spec)
